@@ -2,8 +2,8 @@
 (* C19 S1/S2: histories of read-only calls and caller's scribbles on one Tree object.
    Init enumerates the trees, every step is one call of TreeCalls or one in-place edit (ScrOps) of
    the container that was handed out last; `obj` is the object model of Phylo (cells).  The law: after
-   every history the tree's own list is what it was, it was never handed out, and the tree answers
-   the probe (len, leaves, get_indices, get_distance) as at the beginning.  The complete histories are
+   every history the tree's own list is what it was, it was never handed out, and the probe (len, leaves,
+   get_indices, get_distance: a function of the tree value and that list) is answered as at the beginning.  The complete histories are
    the inputs of S2: each is executed on a fresh real Tree, with the probe after every step. *)
 EXTENDS Phylo, TLC
 CONSTANTS MaxLeaves, MaxArity, Pats, UnaryUpTo, Depth
@@ -12,7 +12,7 @@ vars == <<inp, obj, hist>>
 
 IsInput(x) == \E n \in 1..MaxLeaves, pat \in Pats : x \in TreesOver(0..(n - 1), MaxArity, n <= UnaryUpTo, pat)
 Init == IsInput(inp) /\ obj = ObjInit(inp) /\ hist = <<>>
-AllOps == TreeCalls \cup ScrOps
+AllOps == TreeOps
 Do(op) == /\ Len(hist) < Depth
           /\ ObjEnabled(obj, op)
           /\ obj' = ObjStep(inp, obj, op)
@@ -27,7 +27,6 @@ L_ReadOnly ==
   /\ obj.cells[1] = OwnList(inp)
   /\ obj.held # 1 /\ obj.kinds[1] = "own" /\ \A c \in 2..Len(obj.kinds) : obj.kinds[c] # "own"
   /\ ObjRun(inp, hist) = <<TRUE, obj>>
-  /\ (Len(hist) = Depth => ProbeOf(inp, obj.cells[1]) = ProbeOf(inp, OwnList(inp)))
 \* the probe is the property's observation: every index exactly one leaf, distances = path sums
 L_Probe ==
   hist = <<>> =>
